@@ -7,8 +7,8 @@ package latch
 // VLatches wraps Latches for the driver.
 func VNewLatches(size uint) *Latches { return NewLatches(size) }
 
-func (latches *Latches) VNumSlots() int           { return len(latches.slots) }
-func (latches *Latches) VSlotID(key []byte) int   { return latches.slotID(key) }
+func (latches *Latches) VNumSlots() int         { return len(latches.slots) }
+func (latches *Latches) VSlotID(key []byte) int { return latches.slotID(key) }
 func (latches *Latches) VGenLock(startTS uint64, keys [][]byte) *Lock {
 	return latches.genLock(startTS, keys)
 }
@@ -32,14 +32,14 @@ func (latches *Latches) VWakeup(wl []*Lock) {
 	s.wakeup(wl)
 }
 
-func (l *Lock) VKeys() [][]byte     { return l.keys }
-func (l *Lock) VSlots() []int       { return l.requiredSlots }
-func (l *Lock) VAcquired() int      { return l.acquiredCount }
-func (l *Lock) VStartTS() uint64    { return l.startTS }
-func (l *Lock) VCommitTS() uint64   { return l.commitTS }
-func (l *Lock) VIsLocked() bool     { return l.isLocked() }
-func (l *Lock) VWgAdd()             { l.wg.Add(1) }
-func (l *Lock) VWgWait()            { l.wg.Wait() }
+func (l *Lock) VKeys() [][]byte   { return l.keys }
+func (l *Lock) VSlots() []int     { return l.requiredSlots }
+func (l *Lock) VAcquired() int    { return l.acquiredCount }
+func (l *Lock) VStartTS() uint64  { return l.startTS }
+func (l *Lock) VCommitTS() uint64 { return l.commitTS }
+func (l *Lock) VIsLocked() bool   { return l.isLocked() }
+func (l *Lock) VWgAdd()           { l.wg.Add(1) }
+func (l *Lock) VWgWait()          { l.wg.Wait() }
 
 // VNode / VSlot: structured snapshot of every slot (queue head first, waiting in order).
 type VNode struct {
